@@ -655,7 +655,7 @@ impl State {
                     .sum(); // Sums up all contributions to get total normalisation_sq
 
                 // Renormalise the new collapsed state vector
-                if normalisation_sq > f64::EPSILON {
+                if normalisation_sq > 0.0 {
                     let norm_factor: f64 = normalisation_sq.sqrt();
                     for amplitude in collapsed_state_data.iter_mut() {
                         *amplitude /= norm_factor;
